@@ -327,6 +327,27 @@ def failure_classes(case):
     return cls
 
 
+def shrink_failing(c):
+    """Greedy structural shrinking (speccheck.shrink_project) of a project whose routes file for one
+    engine is generated with exit 0 but does not parse / compile."""
+    import speccheck
+
+    def pred(p):
+        h = servers.build_servers(PROP + "_shrink", [p], engines=[c["engine"]], flags=[c["flags"]])
+        try:
+            g = h.generation[0][c["engine"]]
+            return g["exit"] == 0 and h.compiles[0][c["engine"]] is not True
+        finally:
+            h.cleanup()
+    try:
+        if not pred(c["project"]):
+            return c["project"]       # only the gofmt/package/alias clause fails: nothing to shrink against
+        return speccheck.shrink_project(c["project"], pred)
+    except Exception as ex:          # shrinking is best effort
+        log("shrinking failed: %s" % ex)
+        return c["project"]
+
+
 # ------------------------------------------------------------------ main
 
 def main():
@@ -446,6 +467,8 @@ def main():
         if key in reported or len(reported) >= 4:
             continue
         reported.add(key)
+        if c["gen_ok"] and c["label"] in ("random", "corpus", "replay") and len(reported) <= 2:
+            c = dict(c, project=shrink_failing(c))
         claim = "prop_C09: generation exit 0 => file parses, is gofmt-clean, declares the configured package, its " \
                 "import aliases are valid, unique and used, and it compiles; exit != 0 => no file written"
         res.violation(replay_of(c, kind="property-fails-on-implementation", classes=classes, claim=claim))
